@@ -562,3 +562,13 @@ def check(ctx) -> None:
     c06.rule_b14(ctx, ctx.pipeline_reachable(), "C11-X13")
     rule_x14(ctx)
     rule_x15(ctx)
+    # X16: the selection step compares the per-condition tables position by position, so every table lists the searched
+    # reactions in the same order, the timed-out ones included: results are accumulated in iteration order over all rows
+    # (shared with C10-A4)
+    en16 = prog.func("synrbl.SynMCSImputer.SubStructure.mcs_process.ensemble_mcs")
+    pc16 = [c for c in calls(en16) if unparse(c.func).split(".")[-1] == "Parallel"]
+    ctx.rule("C11-X16", "per-condition results are accumulated in iteration order over all searched rows", 1)
+    ok16 = bool(pc16) and c10._accumulates_in_order(en16, pc16)
+    ctx.instance("C11-X16", "ensemble_mcs: results appended in iteration order per condition", en16.loc(), ok=ok16)
+    if not ok16:
+        ctx.finding("C11-X16", "mcs_process.ensemble_mcs:accumulation", en16.loc(), "the per-condition tables no longer list all searched reactions in the same order (rows skipped, pre-filled or re-ordered): the selection step compares the tables by position, so after one timeout every reaction listed before it is compared with a neighbour's results")
